@@ -319,7 +319,15 @@ def compare_with_model(m, run):
             out.append(f"node {i}: status {ser.get('status')} vs model ok={v['ok']}")
             continue
         cd = ser.get("context_delta") or {}
-        if v["ok"] and (cd.get("created_keys") != v["created"] or cd.get("updated_keys") != v["updated"]):
+        # a top-level bool overwritten by the int of the same value (or the reverse) is one content for the collector's byte-level
+        # comparison and two tokens for the model: such keys are left out of the comparison (see DESIGN §17, C07d)
+        e = run["log"][i] if i < len(run.get("log", [])) else None
+        quirk = set()
+        if e is not None and e["pre_ctx"] is not None and e["post_ctx"] is not None:
+            quirk = {k for k in e["post_ctx"] if k in e["pre_ctx"] and type(e["pre_ctx"][k]) is not type(e["post_ctx"][k])
+                     and isinstance(e["pre_ctx"][k], (bool, int)) and isinstance(e["post_ctx"][k], (bool, int)) and e["pre_ctx"][k] == e["post_ctx"][k]}
+        if v["ok"] and (cd.get("created_keys") != v["created"] or
+                        [k for k in (cd.get("updated_keys") or []) if k not in quirk] != [k for k in v["updated"] if k not in quirk]):
             out.append(f"node {i}: delta {cd.get('created_keys')}/{cd.get('updated_keys')} vs model {v['created']}/{v['updated']}")
         proc = ser.get("processor") or {}
         real_params = {k: (pipegen.enc(val), (proc.get("parameter_sources") or {}).get(k)) for k, val in (proc.get("parameters") or {}).items()}
@@ -409,7 +417,7 @@ def run(tier: str) -> int:
                 stats["placements"][key] = stats["placements"].get(key, 0) + 1
         for sig, what, det in judge(r, nodes, detail, tz):
             rep.add_violation(sig, what, {"nodes": nodes, "initial_context": ctx0, "detail": detail, "tz": tz, "finding": det})
-        if drv is not None and not any(n["processor"] == "TProbeEcho" for n in nodes):      # the echo behaviour is outside the execution model
+        if drv is not None:
             try:
                 m = model_sers(drv, nodes, ctx0, c01.DOC_TABLE)
                 stats["model_compared"] = stats.get("model_compared", 0) + 1
